@@ -441,9 +441,9 @@ func init() {
 		core.RunLeg(c, core.Leg[c10Case]{
 			Name: "X", Kind: "exploration(no panic, no hang)",
 			Rule: "patterns: arbitrary byte strings — literals harvested from the repository's tests and corpora (all of them, compiling or not), structure-aware mutations of them (insert metacharacter sequences, delete/replace bytes incl. invalid UTF-8, duplicate slices, truncate, wrap), printed random full-syntax ASTs and their mutations, random concatenations of metacharacter sequences; random subsets of the 9 regex option bits, code-gen analysis / bitmap off / capture order / stack limits; inputs and replacement strings arbitrary bytes ($-forms, NUL, invalid UTF-8, astral); start offsets in [-2,len+2], counts in {-2,-1,0,1,2,5}. Every exported function (Compile/MustCompile, Match*, Find*, FindNextMatch chain + all Match/Group/Capture accessors, FindAll*Index, Replace, ReplaceFunc, Split, group maps, Escape/Unescape, all 21 adapter methods) runs under recover() and a 20 s watchdog with MatchTimeout 150 ms; allowed outcomes: normal return, parse error, timeout, stack limit, documented argument error; MustCompile panics exactly with the parse error; the adapter panics only with a match-time error. non-trivial = non-empty pattern",
-			N: c.N(12000, 300000), Gen: c10Gen, Check: c10Check, Batch: 500, Corpus: c10Corpus,
+			N:    c.N(12000, 300000), Gen: c10Gen, Check: c10Check, Batch: 500, Corpus: c10Corpus,
 		})
 		vmLeg(c, c.N(3000, 100000), vmSizes{k: 24, maxSteps: c.N(4000, 20000), maxText: 12, extra: 2}) // leg W: interpreter model vs executeDefault (vm.go)
-		parserLeg(c, 2000, 50000) // leg Pr: the parser model (parser.go)
+		parserLeg(c, 2000, 50000)                                                                      // leg Pr: the parser model (parser.go)
 	})
 }
